@@ -1873,7 +1873,7 @@ static void bufr_put_desc_value ( BUFR_Message *bufr, BufrDescriptor *bd )
                ui64val = bufr_cvt_dval_to_i64( bd->descriptor, &(bd->encoding), dval );
                if (isdebug)
                   {
-                  if (bufr_is_missing_double( fval ))
+                  if (bufr_is_missing_double( dval ))
                      sprintf( errmsg, _("MSNG --> %llu"), (unsigned long long)ui64val );
                   else
                      sprintf( errmsg, _("%f --> %llu"), dval, (unsigned long long)ui64val );
